@@ -25,5 +25,7 @@ def check(ctx, rep):
     _tok12.tok_12(ctx, rep)     # what a scan step emits and where the scan continues agree
     from ..rules import rxr as _rx13
     _rx13.rx_13(ctx, rep)       # the lexical patterns are blind to the spelling of line breaks
+    from ..rules import rxr as _src1
+    _src1.src_1(ctx, rep)       # the source text is only decoded and cut into lines on its way to the tokenizer
     rep.note('Not decided: that the regexes and the `pos` arithmetic slice each line correctly (value reasoning), '
              'i.e. the full equality get_code() == input.')
